@@ -1,6 +1,7 @@
 import InTotoModel.Driver.JsonProto
 import InTotoModel.Model.Codec
 import InTotoModel.Model.KeyJson
+import InTotoModel.Model.JsonWrite
 /-
   `doc_dec <kind> <JV>`
   kind ∈ link step insp layout block sig.  The model decodes the document and writes it again;
@@ -42,6 +43,40 @@ def docDec (toks : List String) : String :=
       | none => "bad-op"
     | none => "bad-op"
   | [] => "bad-op"
+
+/-- `doc_text <kind> <flag> <JV>`: the document decoded, encoded again and written as text:
+    `ok <hex to_string_pretty(&doc)> <hex to_string(&doc)> <hex JsonPretty::to_writer(&doc)>` (the first two
+    with the members in the order of the derive, the third through a `Value`, members sorted) or `reject` -/
+def docText (toks : List String) : String :=
+  match toks with
+  | kind :: flag :: rest =>
+    match readJV rest with
+    | some (v, []) =>
+      let E := KeyJson.stdKeyEnv
+      let out : Option (Option JV) :=
+        if kind == "link" then some ((linkOfJson v).map linkToJson)
+        else if kind == "step" then some ((stepOfJson v).map stepToJson)
+        else if kind == "insp" then some ((inspOfJson v).map inspToJson)
+        else if kind == "sig" then some ((sigOfJson v).map sigToJson)
+        else if kind == "layout" then some ((layoutOfJson E v).map (layoutToJson E))
+        else if kind == "meta" then some ((metaOfJson E v).map (metaToJson E))
+        else if kind == "block" then some ((blockOfJson E v).map (blockToJson E))
+        else none
+      match out with
+      | none => "bad-op"
+      | some none => "reject"
+      | some (some j) =>
+        -- (with two or more entries in a `HashMap` the order of the direct texts is unspecified: flag 0)
+        (if flag == "1" then "ok " ++ hexOfStr (JsonWrite.writePretty j) ++ " " ++ hexOfStr (Json.write j) else "ok - -")
+          ++ " " ++ hexOfStr (JsonWrite.writePretty (Json.norm j))
+    | _ => "bad-op"
+  | _ => "bad-op"
+
+/-- `writetext <JV>`: `<hex compact text> <hex pretty text>` (`serde_json::to_string`, `to_string_pretty`) -/
+def writeText (toks : List String) : String :=
+  match readJV toks with
+  | some (v, []) => hexOfStr (Json.write v) ++ " " ++ hexOfStr (JsonWrite.writePretty v)
+  | _ => "bad-op"
 
 /-- `key_dec <JV>`: a key description read and written again: `ok <key id> <JV>` or `reject` -/
 def keyDec (toks : List String) : String :=
